@@ -18,6 +18,7 @@ DRIVERS = [
     ("forwarder_driver", "ExtractForwarder.v", "forwarder_model.ml", "forwarder_driver.ml"),
     ("pool_driver", "ExtractPool.v", "pool_model.ml", "pool_driver.ml"),
     ("mcc_driver", "ExtractMcc.v", "mcc_model.ml", "mcc_driver.ml"),
+    ("ownership_driver", "ExtractOwnership.v", "ownership_model.ml", "ownership_driver.ml"),
     ("registry_driver", "ExtractRegistry.v", "registry_model.ml", "registry_driver.ml"),
     ("observer_driver", "ExtractObserver.v", "observer_model.ml", "observer_driver.ml"),
 ]
